@@ -257,3 +257,25 @@ def run_c10_known(ctx):
         if not ok:
             st.oracle_fail(label, req, clause, detail)
         st.record(label, req, "done", "done")
+
+
+def run_c20_known(ctx):
+    """constraints are compared by their printed text"""
+    st = ctx.suite("Q2-known")
+    key = "constraint-equality-by-printed-text"
+    F, R = spec.F, spec.R
+
+    def m(operand):
+        return dict(root=F("R", [R(0, 1, [F("A", type="Integer")]), R(0, 1, [F("1")]), R(0, 1, [F("B")])]),
+                    ctcs=[("c", OP("EQUALS", T("A"), operand))])
+    one_int = (("i", 1), None, None)
+    cases = [(None, "control:two different names", m(T("B")), m(T("1"))),
+             (key, "the integer 1 against the feature named 1", m(one_int), m(T("1"))),
+             (key, "the float 1.5 against a name spelt 1.5", m((("fl", 1.5), None, None)), m(T("1.5")))]
+    for k, label, a, b in cases:
+        clause = f"known:{k}:{label}" if k else label
+        req = sx.dumps(tag("eqq", spec.fm_sx(a), spec.fm_sx(b)))
+        fa, fb = spec.build_fm(a), spec.build_fm(b)
+        if fa == fb or fb == fa:
+            st.oracle_fail(label, req, clause, "models differing in one constraint operand compare equal")
+        st.record(label, req, "done", "done")
